@@ -754,7 +754,7 @@ pub fn worker(ctx: &mut Ctx) {
         let n = ctx.budget(6_000, 150_000);
         let mut rng = ctx.rng_global("sweep-L");
         let doc_langs = ["java", "javascript", "typescript", "javascriptreact", "typescriptreact", "php", "c", "scala", "dart", "rust"];
-        let pool: [&str; 26] = ["<p>", "</p>", "<ul>", "</ul>", "<li>item one</li>", "<li>", "</li>", "<br/>", "<pre>", "</pre>", "{@code x = 1}", "{@link Foo#bar}", "{@link", "@param name the name", "@return the result",
+        let pool: [&str; 32] = ["```", "```", "```ts", "~~~", "const x = teh;", "    indented(code);", "<p>", "</p>", "<ul>", "</ul>", "<li>item one</li>", "<li>", "</li>", "<br/>", "<pre>", "</pre>", "{@code x = 1}", "{@link Foo#bar}", "{@link", "@param name the name", "@return the result",
             "@throws IOException when it fails", "@see Other", "@deprecated", "@example", "", "*", "<b>bold</b> text", "{@inheritDoc}", "@param", "<!-- c -->", "</p"];
         for i in 0..n {
             unit += 1;
